@@ -4,12 +4,42 @@ CONF = dict(
     cmd='c15',
     props='Props/C15.v',
     glue='Extract/GlueC15.v',
-    rule='placeholder',
-    assumptions=[],
-    trusted=[],
-    technique='placeholder',
-    level_text='placeholder',
-    level_note='placeholder',
-    explanation='placeholder',
+    rule=('three case kinds. rand.intn: crypto.RandIntn(n) with crypto/rand.Reader replaced by a scripted tape of 32-bit words: n in 1..12, 2^k-1/2^k/2^k+1, 3*2^k, MaxInt32-3..MaxInt32, '
+          'above 2^31 up to MaxInt64 (64-bit branch, incl. odd word counts), n <= 0 (panic); words at, one below, one above and inside the rejection threshold 2^32 mod n, multiples '
+          'of n, 0..3, 2^32-1..2^32-3, random; live and cancelled contexts. rand.sample: crypto.Sample(k, n) for k,n in -2..40 (k <, =, > n; 0) on tapes built per draw from the same word '
+          'classes, short tapes, cancelled contexts; the pick(dst, src) calls are recorded. mp.hist: histories of 2..10 rounds of the real client.MeasureClockOffsetSCION with 0..7 real '
+          'SCIONClients (interleaved mode enabled or not, with a recording filter or without) against a scripted SCION NTP peer on loopback that has one UDP socket per offered path '
+          '(= underlay next hop of that path; clients are told apart by their DSCP value): 0..12 offered paths per round with fingerprint ids from a small alphabet (equal fingerprints, the '
+          'metadata-less path with the empty fingerprint), paths withdrawn / added / duplicated / reordered / all withdrawn between rounds; per client and request the peer answers '
+          'conformantly (basic, then interleaved), always in basic mode, or with a reply the client rejects; per client the filter returns scripted offsets (equal values, 0, '
+          'int64 extremes); the random tape of every round is scripted (threshold words for the draws of that round). Recorded per round and client: next hops reached, filter '
+          'resets, form of every request, filter results, InInterleavedMode()/InterleavedModePath() afterwards; result class, offset, words consumed. A rand.intn case is non-trivial '
+          'when its first word is rejected; a rand.sample case when 0 < k < n; a history when it contains a kept path, a reset of a client that was in interleaved mode and a '
+          'round that consumed random words; distinct = distinct (kind, input)'),
+    assumptions=['paths are identified by their index in the offered slice; at most MaxInt64 paths',
+                 'the random generator is any finite list of 32-bit words followed by a constant word (every eventually constant stream); a constant tail that is always rejected makes the model answer Hang',
+                 'within a history the previous exchange of a client is less than 3 s old and the server is the same (the harness ends a history with the round that finishes more than 2 s after the history began; a history normally takes about 10 ms)',
+                 'a failed client contributes the zero Measurement (offset 0) to the midpoint, as the code does (collectMeasurements leaves its slot untouched)',
+                 'reservoir uniformity is stated for exactly uniform draws; the deviation of RandIntn from uniform is the separate near-uniformity theorem',
+                 'timestamps of the reported measurement are not modelled (only the offset and the error)'],
+    trusted=['modelled, not verified: crypto/rand.Read (reads len(b) bytes from rand.Reader), snet.Fingerprint (equal metadata interfaces <=> equal fingerprint, empty for no metadata), '
+             'slices.SortFunc inside measurements.FaultTolerantMidpoint (a sorted permutation, see C02), goroutines/channels of the collection step (every participant sends exactly one Measurement)',
+             'the scripted SCION NTP peer of the harness (gopacket/slayers encoding of replies with an empty SCION path) and the kernel UDP loopback'],
+    technique=('Coq proofs over a Gallina model of crypto.RandIntn/Sample and of MeasureClockOffsetSCION: permutation invariant of the sticky loop with swap-remove, reservoir invariant '
+               '(slots hold distinct earlier candidates, sources strictly increase) by induction over the pick list for every tape, counting of residue classes of accepted words by '
+               'Euclidean division (nia), permutation invariance of the fault-tolerant midpoint, counting of draw vectors by induction for the per-candidate inclusion probability k/n; '
+               'the oracle is proved to accept every round of the model; differential execution of the extracted model against the real functions on scripted tapes and against the '
+               'real MeasureClockOffsetSCION over loopback SCION exchanges'),
+    level_text=('Theorems hold for all numbers of clients and offered paths, all client states (in interleaved mode or not, previous path present / withdrawn / shared with other clients / '
+                'duplicated among the offered paths), all tapes and all completion orders; near-uniformity of RandIntn for all 2 <= n < 2^31; reservoir uniformity is proved per candidate '
+                '(inclusion probability exactly k/n for all k <= n), not per subset (named _partial). The model is tied to the code on every run by replaying generated histories on the '
+                'real MeasureClockOffsetSCION with real SCION clients and by comparing RandIntn/Sample with the model on scripted tapes; the C15 oracle is evaluated on the implementation\'s observations'),
+    level_note=('Trusted: Coq kernel, hand-written model validated by the correspondence run, extraction, harness incl. its scripted peer. No hook needed (exported API, replaced rand.Reader, '
+                'recording filter, DSCP as client tag). No axioms. Observation: a participant whose exchanges all fail contributes offset 0 and a round in which every exchange fails '
+                'returns offset 0 without an error (the code ignores the count returned by collectMeasurements).'),
+    explanation=('oracle clauses per round: every client reaches at most one next hop, all reached hops are offered and pairwise distinct; participants = min(clients, paths); going through the '
+                 'clients in order a client in interleaved mode keeps a path with the fingerprint of its previous exchange iff one is still available (then no filter reset, first request '
+                 'in interleaved form), otherwise its filter is reset once and its first request is in basic form; errNoPath iff nobody can take part; offset = fault-tolerant midpoint '
+                 'over the participants\' last filter results (0 for a failed one). rand.intn: result in [0,n) and congruent to the accepted word; rand.sample: min(k,n) slots filled from distinct candidates'),
     timeout_quick=900, timeout_thorough=3000,
 )
